@@ -12,15 +12,34 @@ From SigG Require GenLocks.
 From SigP Require LockTraceProofs LockOrderProofs GenLocksCheck GenLocksProofs.
 Open Scope nat_scope.
 
+(* The reader of the model follows the searcher: a record query turns every request of its plan into
+   blocks (a segment seen in BOTH lists contributes every block twice), the block list reaches
+   getBlocks in batches ([batching]: any function whose batches contain exactly the blocks of the list —
+   blocks may come twice in a batch, in several batches, be submitted again), getFilteredBlocks marks a
+   block in processedBlocks when it accepts it, the accepted blocks are re-ordered and cut into groups
+   ([grouping]: anything that keeps every block as often as it was accepted; the any-order searcher
+   takes GOMAXPROCS blocks per Fetch), and each group is read through a block map.
+   Query routes ([kind_of]): QRecords (raw-record search: `*`, and whatever stands in front of a later
+   stats command), QStats (first command `stats` without by-clause), QGroupBy (first command `stats ... by`).
+
+   FULL STATEMENT (property text): for every route, a query returns every block that was flushed before
+   it began exactly once.  It holds for QRecords and QStats (next two theorems); the QGroupBy route of
+   the code violates it (C11_groupby_lost_refuted, C11_groupby_doubled_refuted; known/C11.json) and is
+   proved under the guard "no hand-over step falls into the query" (C11_groupby_exactly_once_guarded). *)
+
 (* A query returns every block that was flushed before the query began EXACTLY ONCE, for record
    queries and statistics queries alike, whatever rotations, flushes and other queries interleave
-   with it. *)
+   with it, for any batching of the block list and any grouping of the accepted blocks. *)
 Theorem C11_handover_exactly_once :
-  forall (nseg : nat) (is_stats : nat -> bool) (pre post : list ev) (r s b : nat),
-  let y1 := run nseg true is_stats sys_init pre in
+  forall (nseg : nat) (batching grouping : list blk -> list (list blk)),
+  (forall l x, In x (concat (batching l)) <-> In x l) ->
+  (forall l x, count_pair x (concat (grouping l)) = count_pair x l) ->
+  forall (kind_of : nat -> qkind) (pre post : list ev) (r s b : nat),
+  kind_of r <> QGroupBy ->
+  let y1 := run nseg true true batching grouping kind_of sys_init pre in
   stage (rds y1 r) = RIdle ->
   s < nseg -> ph (segs y1 s) <> Absent -> b < nb (segs y1 s) ->
-  let y := run nseg true is_stats y1 (SnapU r :: post) in
+  let y := run nseg true true batching grouping kind_of y1 (SnapU r :: post) in
   stage (rds y r) = RDone ->
   count_pair (s, b) (result (rds y r)) = 1.
 Proof. exact handover_exactly_once. Qed.
@@ -28,27 +47,109 @@ Print Assumptions C11_handover_exactly_once.
 
 (* Nothing at all (also blocks flushed while the query runs) is ever returned twice. *)
 Theorem C11_handover_at_most_once :
-  forall (nseg : nat) (is_stats : nat -> bool) (pre post : list ev) (r : nat) (x : nat * nat),
-  let y1 := run nseg true is_stats sys_init pre in
+  forall (nseg : nat) (batching grouping : list blk -> list (list blk)),
+  (forall l x, In x (concat (batching l)) <-> In x l) ->
+  (forall l x, count_pair x (concat (grouping l)) = count_pair x l) ->
+  forall (kind_of : nat -> qkind) (pre post : list ev) (r : nat) (x : nat * nat),
+  kind_of r <> QGroupBy ->
+  let y1 := run nseg true true batching grouping kind_of sys_init pre in
   stage (rds y1 r) = RIdle ->
-  let y := run nseg true is_stats y1 (SnapU r :: post) in
+  let y := run nseg true true batching grouping kind_of y1 (SnapU r :: post) in
   stage (rds y r) = RDone ->
   count_pair x (result (rds y r)) <= 1.
 Proof. exact handover_at_most_once. Qed.
 Print Assumptions C11_handover_at_most_once.
 
+(* The premises on batching/grouping are met by the searcher of the code in any-order mode: the whole
+   block list in one getBlocks batch, GOMAXPROCS = P blocks per Fetch, for EVERY P (under 1..16
+   processors and beyond) and every number of blocks per segment. *)
+Theorem C11_handover_exactly_once_for_every_gomaxprocs :
+  forall (nseg P : nat) (kind_of : nat -> qkind) (pre post : list ev) (r s b : nat),
+  kind_of r <> QGroupBy ->
+  let y1 := run nseg true true one_batch (chunks P) kind_of sys_init pre in
+  stage (rds y1 r) = RIdle ->
+  s < nseg -> ph (segs y1 s) <> Absent -> b < nb (segs y1 s) ->
+  let y := run nseg true true one_batch (chunks P) kind_of y1 (SnapU r :: post) in
+  stage (rds y r) = RDone ->
+  count_pair (s, b) (result (rds y r)) = 1.
+Proof. exact handover_exactly_once_gomaxprocs. Qed.
+Print Assumptions C11_handover_exactly_once_for_every_gomaxprocs.
+
+(* The de-duplication of the block list by (segment key, block number), on its own: for ANY list of
+   batches and ANY grouping, the answer holds a block exactly once if it is anywhere in the raw list
+   (however often: once per listing of its segment), and not at all otherwise. *)
+Theorem C11_block_list_deduplicated_for_any_batching :
+  forall (batching grouping : list blk -> list (list blk)),
+  (forall l x, In x (concat (batching l)) <-> In x l) ->
+  (forall l x, count_pair x (concat (grouping l)) = count_pair x l) ->
+  forall (raw : list blk) (x : blk),
+  count_pair x (searcher_answer true batching grouping raw) = if bmem x raw then 1 else 0.
+Proof. exact searcher_answer_count. Qed.
+Print Assumptions C11_block_list_deduplicated_for_any_batching.
+
+(* Without the marking inside the loop (processedBlocks updated only after the batch has been filtered)
+   the statement is false exactly in the hand-over window: a segment with 2 blocks listed twice, groups
+   of 2 blocks: both blocks are read twice; groups of 4 blocks hide it (block map of the group), and
+   so do plans made before or after the window — which is why sequential tests and plain `*` pass. *)
+Theorem C11_filter_then_record_refuted :
+  let ans ib P evs b := count_pair (0, b) (result (rds (run 1 true ib one_batch (chunks P) (fun _ => QRecords) sys_init evs) 0)) in
+  (ans false 2 window_plan 0 = 2 /\ ans false 2 window_plan 1 = 2) /\
+  (ans false 4 window_plan 0 = 1 /\ ans false 4 window_plan 1 = 1) /\
+  (ans true 2 window_plan 0 = 1 /\ ans true 2 window_plan 1 = 1) /\
+  (ans false 2 [Create 0; Flush 0; Flush 0; SnapU 0; SnapR 0; Resolve 0] 0 = 1 /\
+   ans false 2 [Create 0; Flush 0; Flush 0; Noop; AddRot 0; DelUnrot 0; SnapU 0; SnapR 0; Resolve 0] 0 = 1).
+Proof. exact two_pass_filter_refuted. Qed.
+Print Assumptions C11_filter_then_record_refuted.
+
+(* The group-by route as coded: guarded variant (guard: the segment is not inside its hand-over window
+   when the query begins and no AddRot/DelUnrot of any segment happens while the query runs) ... *)
+Theorem C11_groupby_exactly_once_guarded :
+  forall (nseg : nat) (batching grouping : list blk -> list (list blk))
+         (kind_of : nat -> qkind) (pre post : list ev) (r s b : nat),
+  kind_of r = QGroupBy ->
+  let y1 := run nseg true true batching grouping kind_of sys_init pre in
+  stage (rds y1 r) = RIdle ->
+  s < nseg -> ph (segs y1 s) <> Absent -> b < nb (segs y1 s) ->
+  ph (segs y1 s) <> Both -> forallb (fun e => negb (is_handover_ev e)) post = true ->
+  let y := run nseg true true batching grouping kind_of y1 (SnapU r :: post) in
+  stage (rds y r) = RDone ->
+  count_pair (s, b) (result (rds y r)) = 1.
+Proof. exact groupby_exactly_once_guarded. Qed.
+Print Assumptions C11_groupby_exactly_once_guarded.
+
+(* ... and the two refutations of the full statement for this route (both reproduced on the real code by
+   the forced schedules: wrrwwwr and wrwrrww) *)
+Theorem C11_groupby_lost_refuted :
+  exists evs, let y := run 1 true true one_batch (chunks 16) (fun _ => QGroupBy) sys_init evs in
+    stage (rds y 0) = RDone /\ count_pair (0, 0) (result (rds y 0)) = 0.
+Proof. exact groupby_lost_refuted. Qed.
+Print Assumptions C11_groupby_lost_refuted.
+
+Theorem C11_groupby_doubled_refuted :
+  exists evs, let y := run 1 true true one_batch (chunks 16) (fun _ => QGroupBy) sys_init evs in
+    stage (rds y 0) = RDone /\ count_pair (0, 0) (result (rds y 0)) = 2.
+Proof. exact groupby_doubled_refuted. Qed.
+Print Assumptions C11_groupby_doubled_refuted.
+
+(* the guard is satisfiable (a query over an open and a rotated segment, with a flush in between) *)
+Example C11_groupby_guard_nonvacuous :
+  let y := run 2 true true one_batch (chunks 16) (fun _ => QGroupBy) sys_init
+             [Create 0; Flush 0; AddRot 0; DelUnrot 0; Create 1; Flush 1; SnapU 0; Flush 1; SnapR 0; Resolve 0] in
+  stage (rds y 0) = RDone /\ count_pair (0, 0) (result (rds y 0)) = 1 /\ count_pair (1, 0) (result (rds y 0)) = 1.
+Proof. exact groupby_guard_nonvacuous. Qed.
+
 (* Queries never change what is stored: after any interleaving the segment table is the one the
    writers' events alone produce (quiescent state = sequential execution of the same ingests). *)
 Theorem C11_queries_transparent :
-  forall nseg sd is_stats evs y s,
-  segs (run nseg sd is_stats y evs) s = segs (run nseg sd is_stats y (filter is_writer_ev evs)) s.
+  forall nseg sd ib bt gp kind_of evs y s,
+  segs (run nseg sd ib bt gp kind_of y evs) s = segs (run nseg sd ib bt gp kind_of y (filter is_writer_ev evs)) s.
 Proof. exact readers_transparent. Qed.
 Print Assumptions C11_queries_transparent.
 
 (* The statistics path before fix 08e84b8 (no de-duplication of a segment present in both
    snapshots) violates the property: witness interleaving, the block is counted twice. *)
 Theorem C11_stats_double_count_refuted :
-  exists evs, let y := run 1 false (fun _ => true) sys_init evs in
+  exists evs, let y := run 1 false true one_batch (chunks 16) (fun _ => QStats) sys_init evs in
     stage (rds y 0) = RDone /\ count_pair (0, 0) (result (rds y 0)) = 2.
 Proof. exact stats_double_count_refuted. Qed.
 Print Assumptions C11_stats_double_count_refuted.
